@@ -267,7 +267,7 @@ def check_c04(root, pid, tier, seed, replay):
                 if len(res.violations) < 5:
                     txt = ('# C04: the real crate under loom, program %d (%s): %s\n# replay: ./check C04 --replay <this file>   '
                            '(threads A and B each own a handle to one shared 30-byte heap buffer; vN: 0 = both moved, 1 = main keeps a third handle, '
-                           '2 = B\'s handle truncated first; &op programs: both threads borrow &base, clone through it and run op on the clone, 10 = base is the only handle, 11 = main keeps a second one)\nprogram %d\n' % (idx, name, detail, idx))
+                           '2 = B\'s handle truncated to 17 bytes first, 3 = to 5 bytes; &op programs: both threads borrow &base, clone through it and run op on the clone, 10 = base is the only handle, 11 = main keeps a second one)\nprogram %d\n' % (idx, name, detail, idx))
                     rp = lsv.write_replay(root, pid, 'loom_%d' % idx, txt)
                     res.violations.append(('loom program %d %s: %s' % (idx, name, detail[:200]), rp, True, 'loom'))
         stats['steps'] = execs
